@@ -264,6 +264,60 @@ func cmdDepth(args []string) {
 			}
 		}
 	}
+	// GetOneLineSource names the innermost stack-capturing frame, whichever layers were added on
+	// top, whether the layers are local or were received from another process, and however
+	// deep the call was made
+	src := func(e error) string {
+		f, l, fn, ok := withstack.GetOneLineSource(e)
+		return fmt.Sprintf("%s:%d %s %v", f, l, fn, ok)
+	}
+	firstFrame := func(e error) string {
+		for c := e; c != nil; c = errors.UnwrapOnce(c) {
+			// the stack of the layer that created the error (errors.New = a stack layer over a leaf)
+			if st := withstack.GetReportableStackTrace(c); st != nil && len(st.Frames) > 0 && errors.UnwrapOnce(errors.UnwrapOnce(c)) == nil {
+				// sentry order: innermost call last
+				fr := st.Frames[len(st.Frames)-1]
+				return fmt.Sprintf("%s:%d %s", filepath.Base(fr.Filename), fr.Lineno, fr.Function)
+			}
+		}
+		return "none"
+	}
+	for _, depth := range []int{0, 3, 9, 15, 16, 17, 24, 40} {
+		id := fmt.Sprintf("innermost-depth%d", depth)
+		evals++
+		e := c16Recurse(depth, c16Origin)
+		want := src(e)
+		if !strings.Contains(want, "c16Origin true") {
+			fail(id, "GetOneLineSource of a fresh error does not name the function that created it: "+want, "")
+			continue
+		}
+		ff := firstFrame(e)
+		cur := e
+		for hop := 1; hop <= 2; hop++ {
+			cur = transferOnce(cur, nil)
+			if got := src(cur); got != want {
+				fail(id, fmt.Sprintf("GetOneLineSource after %d hop(s) is %q, at the origin it was %q (constructor called %d frames deep)", hop, got, want, depth), "")
+				break
+			}
+			if got := firstFrame(cur); got != ff {
+				fail(id, fmt.Sprintf("innermost reportable frame after %d hop(s) is %q, at the origin %q (constructor called %d frames deep)", hop, got, ff, depth), "")
+				break
+			}
+			for wi, w := range []error{c16WrapLocally(cur), c16StackLocally(cur), c16WrapLocally(c16StackLocally(cur))} {
+				evals++
+				if got := src(w); got != want {
+					fail(fmt.Sprintf("%s-hop%d-localwrap%d", id, hop, wi), fmt.Sprintf("GetOneLineSource of a local stack-capturing wrapper over a received error is %q, the innermost frame is %q", got, want), "")
+					break
+				}
+			}
+		}
+		for wi, w := range []error{c16WrapLocally(e), c16StackLocally(e)} {
+			evals++
+			if got := src(w); got != want {
+				fail(fmt.Sprintf("%s-localwrap%d", id, wi), fmt.Sprintf("GetOneLineSource of a wrapper is %q, the innermost frame is %q", got, want), "")
+			}
+		}
+	}
 	names := map[string]bool{}
 	for _, e := range entries {
 		names[e.name] = true
@@ -295,3 +349,21 @@ func isC16Entry(name string) bool {
 	}
 	return false
 }
+
+//go:noinline
+func c16Origin() error { return errors.New("origin") }
+
+//go:noinline
+func c16Recurse(n int, f func() error) error {
+	if n <= 0 {
+		return f()
+	}
+	e := c16Recurse(n-1, f)
+	return e
+}
+
+//go:noinline
+func c16WrapLocally(e error) error { return errors.Wrap(e, "local") }
+
+//go:noinline
+func c16StackLocally(e error) error { return errors.WithStack(e) }
